@@ -104,6 +104,9 @@ func transparentCallee(in ssa.Instruction) *ssa.Function {
 	if Baseline == nil || Baseline[cal.RelString(nil)] {
 		return nil
 	}
+	if cal.Pkg == nil || cal.Pkg.Pkg == nil || !strings.HasPrefix(cal.Pkg.Pkg.Path(), ModulePath) {
+		return nil
+	}
 	// a helper that registers defers or recovers has its own frame semantics
 	for _, b := range cal.Blocks {
 		for _, i := range b.Instrs {
@@ -153,4 +156,18 @@ func regionFuncs(fn *ssa.Function) []*ssa.Function {
 		}
 	}
 	return out
+}
+
+// HomeFn returns the function in which fn's body is read: fn itself, or —
+// when fn is a helper that is being looked through — the (home of the)
+// function that contains its only call site. Who-may-write rules compare homes.
+func HomeFn(fn *ssa.Function) *ssa.Function {
+	for i := 0; i < 8 && fn != nil; i++ {
+		call := transparentOf(fn)
+		if call == nil {
+			return fn
+		}
+		fn = call.Parent()
+	}
+	return fn
 }
